@@ -228,7 +228,17 @@ def F20_debug_placeholder_order_in_ne_layer():
     return None if out[0] == out[1] else f"ERROR level -> {out[0]}, DEBUG level -> {out[1]}"
 
 
-ALL = [F20_debug_placeholder_order_in_ne_layer, F15_latlon_triples_node_mode, F1_hashseed, F2_long_edge, F3_latlon_box, F6c_latlon_inf, F4_sqlite_bb, F5a_parallel, F6a_obs_on_road,
+def F21_antimeridian_box():
+    """C11/C15: the lat-lon search box left [-180, 180] near the antimeridian, so nodes and edges on the other side of the
+    date line were never candidates (node 22 m east of the query location, across longitude 180)."""
+    from leuvenmapmatching.map.inmem import InMemMap
+    m = InMemMap('m', use_latlon=True, use_rtree=False, graph={1: ((10.0, 179.9999), [2]), 2: ((10.0, -179.9999), [1])})
+    got = sorted(k for d, k, p in m.nodes_closeto((10.0, 179.9999), max_dist=50))
+    ge = sorted((a, b) for d, a, pa, b, pb, pi, ti in m.edges_closeto((10.0, -179.9999), max_dist=50))
+    return None if got == [1, 2] and ge == [(1, 2), (2, 1)] else f"nodes_closeto((10, 179.9999), 50 m) = {got} (expected [1, 2]); edges_closeto((10, -179.9999), 50 m) = {ge}"
+
+
+ALL = [F21_antimeridian_box, F20_debug_placeholder_order_in_ne_layer, F15_latlon_triples_node_mode, F1_hashseed, F2_long_edge, F3_latlon_box, F6c_latlon_inf, F4_sqlite_bb, F5a_parallel, F6a_obs_on_road,
        F6b_triples_planar_ne, F7_sqlite_reopen_flag, F8_debug_changes_result, F12_sqlite_float32]
 
 if __name__ == '__main__':
